@@ -50,15 +50,18 @@ def _config(tmp, stubborn, two, warm):
     return '\n'.join(lines)
 
 
-def c08_shutdown(ti: int, pi: int, d: int, late: int) -> bool:
+def c08_shutdown(ti: int, pi: int, d: int, late: int, rep: int) -> bool:
     """
-    pre: 0 <= ti < len(TRIGGERS) and pi == rt.S['pre'] and 0 <= late <= 2
+    rep: the trigger is delivered 1 + rep times, 0.1 s apart (an impatient operator).
+
+    pre: 0 <= ti < len(TRIGGERS) and pi == rt.S['pre'] and 0 <= late <= 2 and 0 <= rep <= rt.S.get('repmax', 0)
     pre: 0 <= d <= rt.S.get('dmax', 30)
     post: _
     """
     S = rt.S
     ti = rt.pick(ti, len(TRIGGERS))
     late = rt.pick(late, 3)
+    rep = rt.pick(rep, 3)
     trig = TRIGGERS[ti]
     pre = PRE[rt.pick(pi, len(PRE))]
     tmp = tempfile.mkdtemp(prefix='c08_')
@@ -99,6 +102,9 @@ def c08_shutdown(ti: int, pi: int, d: int, late: int) -> bool:
                 if state['fired'] or w.arbiter is None or w.arbiter.ctrl is None or not getattr(w.arbiter.ctrl, 'started', False):
                     return
                 state['fired'] = True
+                for n_ in range(rep):
+                    w.vloop.call_later(0.1 * (n_ + 1), (lambda: w.send('quit')) if trig in ('quit', 'quit_waiting') else
+                                       (lambda: w.arbiter.ctrl.sys_hdl.signal(trig)))
                 if trig in ('quit', 'quit_waiting'):
                     state['quit_req'] = w.send('quit', waiting=(trig == 'quit_waiting'))
                 else:
@@ -146,10 +152,15 @@ def c08_shutdown(ti: int, pi: int, d: int, late: int) -> bool:
                 cd.main()
             except SystemExit as e:
                 code = e.code
-            except (scen.Diverged, scen.BlockedLoop):
+            except scen.Diverged:
                 return rt.skip()
+            except scen.BlockedLoop:
+                pass
             if w.clock.tripped:
-                return rt.skip()
+                if pre == 'kill' and rt.finding_listed('c05.reap_process_busy_wait'):
+                    return rt.skip()          # listed C05 finding: reaping while a kill request is in its grace period
+                rt.note('the event loop blocked during shutdown (%r, pre=%s, d=%d, late=%d, rep=%d): the daemon never exits', trig, pre, d, late, rep)
+                return rt.verdict(False)
             ok = True
             exclusive_at_trigger = state.get('pre_req') is not None or (d > 0)
             if state['hung']:
@@ -328,7 +339,7 @@ CANARIES = {
 
 KNOWN = [
     {'key': 'c08.signal_dropped_while_operation_in_flight', 'fn': 'c08_shutdown', 'shard': {'pre': 2, 'dmax': 0, 'stubborn': True},
-     'args': dict(ti=2, pi=2, d=0, late=1),
+     'args': dict(ti=2, pi=2, d=0, late=1, rep=0),
      'what': 'a SIGTERM / SIGINT / SIGQUIT that arrives while an exclusive operation holds the slot (start-up pacing, restart, reload, '
              'periodic check, ...) is turned into a quit dispatch that fails with ConflictError and is dropped: the daemon keeps running'},
 ]
@@ -340,12 +351,13 @@ def plan(tier):
     for pi in range(len(PRE)):
         sh.append({'pre': pi, 'dmax': 0, 'stubborn': False})
         sh.append({'pre': pi, 'dmax': 0, 'stubborn': True})
+    sh.append({'pre': 0, 'dmax': 0, 'stubborn': True, 'repmax': 2})
     sh.append({'pre': 0, 'dmax': 12 if q else 40, 'stubborn': False})
     sh.append({'pre': 0, 'dmax': 12 if q else 40, 'stubborn': True, 'warm': 1})
     return [
         Cond('c08_shutdown', shards=sh, budget=300 if q else 1800, twins=2,
              bounds={'trigger': 'S%r' % (TRIGGERS,), 'pre': 'S: request issued just before %r' % (PRE,), 'late': 'S{same instant, +0.05 s, +0.3 s}',
-                     'd': 'R[0,dmax] kernel call (after the controller is up) at which the trigger is delivered', 'workers': 'S{obedient, stubborn}'}),
+                     'rep': 'S[0,2] extra deliveries of the trigger 0.1 s apart', 'd': 'R[0,dmax] kernel call (after the controller is up) at which the trigger is delivered', 'workers': 'S{obedient, stubborn}'}),
         Cond('c08_pidfile', budget=240 if q else 600, twins=1,
              bounds={'core': 'S%r' % (CORES,), 'PRE,POST': 'S: %r' % (FRINGE,), 'missing': 'S{file exists, no file}',
                      'liveness': 'own pid / live / dead / alive-but-EPERM'}),
